@@ -173,8 +173,15 @@ def generate(ctx):
             ops = ([["in"]] + [["ix", 0]] * k + ops)[:200]
         ops = _fix_iter_ops(ops)
         title = rng.choice(["generated system", "t= 0.0", "Gro file", "x" * 60, "a b  c"])
-        yield {"kind": "sysgro", "cls": cls, "title": title, "vel": rng.random() < 0.5,
-               "coordseed": rng.randrange(1 << 30), "residues": residues, "ops": ops}
+        case = {"kind": "sysgro", "cls": cls, "title": title, "vel": rng.random() < 0.5,
+                "coordseed": rng.randrange(1 << 30), "residues": residues, "ops": ops}
+        if rng.random() < 0.4:
+            # triclinic box line: v1(x) v2(y) v3(z) v1(y) v1(z) v2(x) v2(z) v3(x) v3(y), all nine entries distinct
+            # (so that a transposed or permuted matrix cannot pass), negative entries included
+            d = [rng.choice([3.0, 4.5, 6.25]) + k for k in range(3)]
+            off = [round(rng.choice([-1, 1]) * (0.125 + 0.25 * k + rng.randint(0, 3) * 0.0625), 5) for k in range(6)]
+            case["box"] = d + off
+        yield case
 
 
 _counter = [0]
@@ -216,7 +223,12 @@ def evaluate(ctx, case):
     common.decoy(path, "gro")
     residues = case["residues"]
     ops = _fix_iter_ops(case["ops"])
-    G.write_gro(path, case["title"], residues, case["coordseed"], case["vel"])
+    if case.get("box"):
+        G.write_gro(path, case["title"], residues, case["coordseed"], case["vel"], box=tuple(case["box"]))
+        ctx.count("box:triclinic")
+    else:
+        G.write_gro(path, case["title"], residues, case["coordseed"], case["vel"])
+        ctx.count("box:rectangular")
     raw = G.parse_gro_raw(path)
     file_bytes = open(path, "rb").read()
     atoms = raw["atoms"]
@@ -283,7 +295,11 @@ def evaluate(ctx, case):
     ctx.oracle_ok(4)
     if natoms_impl != raw["natoms"] or natoms_impl != len(atoms):
         ctx.oracle_fail("SystemGro.n_atoms", case, {"impl": natoms_impl, "file": raw["natoms"]})
-    if not np.array_equal(box_impl, np.diag(raw["box"])):
+    rb = raw["box"]
+    # rows = box vectors; the nine numbers of a triclinic line are v1x v2y v3z v1y v1z v2x v2z v3x v3y
+    want_box = np.diag(rb) if len(rb) == 3 else np.array([[rb[0], rb[3], rb[4]], [rb[5], rb[1], rb[6]],
+                                                             [rb[7], rb[8], rb[2]]])
+    if not np.array_equal(box_impl, want_box):
         ctx.oracle_fail("SystemGro.box_matrix", case, {"impl": box_impl, "file": raw["box"]})
     if title_impl.rstrip("\n") != raw["title"].rstrip("\n"):
         ctx.oracle_fail("SystemGro.comment_line", case, {"impl": title_impl, "file": raw["title"]})
@@ -326,9 +342,18 @@ def evaluate(ctx, case):
     for op in ops:
         try:
             if op[0] == "g":
-                r = [G.residue_tuples(s[int(op[1])])]
+                got = s[int(op[1])]
+                r = [G.residue_tuples(got)]
+                # what was handed out is the caller's: it is moved and renumbered here; a later fetch of the same
+                # index must again be the FILE's k-th residue (seed C12-5: the last fetched object is memoised
+                # and handed out again)
+                got.move(np.array([1.0, -2.0, 0.5]))
+                got.resid = 4242
             elif op[0] == "s":
-                r = [G.residue_tuples(x) for x in s[slice(op[1], op[2], op[3])]]
+                gots = s[slice(op[1], op[2], op[3])]
+                r = [G.residue_tuples(x) for x in gots]
+                for x in gots[:3]:
+                    x.move(np.array([0.25, 0.25, -1.0]))
             elif op[0] == "in":
                 iters.append(iter(s))
                 r = []
